@@ -53,6 +53,13 @@ RowsS == { R(C("-", <<I(1), V(1)>>), C("f", <<V(1)>>), I(1)), R(C("-", <<I(2), V
 SimpleS == LET calls == { C(op, <<t, g, L>>) : op \in {"findall", "bagof", "setof"}, t \in {X, Z, C("-", <<X, Z>>)},
                                                  g \in {R(X, Y, Z), C("^", <<Z, R(X, Y, Z)>>), C("^", <<X, R(X, Y, Z)>>)} }
            IN calls \cup { C(",", <<c, C("=", <<Y, C("f", <<A("a")>>)>>)>>) : c \in calls }
+\* a variable that occurs ONLY as the tail of a partial list with two elements before the bar (a representation of its own in the
+\* implementation), in the goal (free: it belongs to the witness) or in the template (not free)
+TailV == V(5)
+PQ(t) == Cons(A("p"), Cons(A("q"), t))
+RowsT == { R(A("a"), PQ(MkList(<<A("r")>>)), I(1)), R(A("b"), PQ(MkList(<<A("s")>>)), I(2)), R(A("a"), PQ(MkList(<<A("r")>>)), I(3)), R(A("a"), PQ(Nil), I(1)) }
+SimpleT == { C(op, <<t, g, L>>) : op \in {"findall", "bagof", "setof"}, t \in {X, PQ(TailV), Cons(X, Cons(X, TailV)), C("-", <<X, Z>>)},
+                                  g \in {R(X, PQ(TailV), Z), C("^", <<Z, R(X, PQ(TailV), Z)>>), C("^", <<PQ(TailV), R(X, PQ(TailV), Z)>>)} }
 VARIABLES st, hist, q, rows
 gvars == <<st, hist, q, rows>>
 \* longer tables whose witnesses interleave (a, b, b, a / a, b, c, c, b, a / ...): every group must list its solutions in solution order
@@ -61,8 +68,8 @@ TableOf(pattern) == [i \in 1..Len(pattern) |-> R(A("a"), Wit(pattern[i]), I(i))]
 TablesO == { TableOf(<<1, 2, 2, 1>>), TableOf(<<1, 2, 3, 3, 2, 1>>), TableOf(<<1, 2, 1, 2, 2, 1>>), TableOf(<<2, 1, 1, 3, 1, 2, 3>>), TableOf(<<1, 1, 2, 2, 1, 3, 2, 1>>) }
 SimpleO == { C(op, <<t, g, L>>) : op \in {"findall", "bagof", "setof"}, t \in {Z, C("-", <<Z, X>>)},
                                   g \in {C("^", <<X, R(X, Y, Z)>>), R(X, Y, Z), C("^", <<X, C(",", <<R(X, Y, Z), C("\\==", <<Z, I(2)>>)>>)>>)} }
-GInit == /\ rows \in (IF LISTS = "order" THEN TablesO ELSE [1..NR -> (IF LISTS = "lists" THEN RowsL ELSE IF LISTS = "share" THEN RowsS ELSE Rows)])
-         /\ q \in (IF LISTS = "order" THEN SimpleO ELSE IF LISTS = "lists" THEN SimpleL ELSE IF LISTS = "share" THEN SimpleS ELSE Simple \cup (IF NEST THEN Nested \cup Indirect ELSE {}))
+GInit == /\ rows \in (IF LISTS = "order" THEN TablesO ELSE [1..NR -> (IF LISTS = "lists" THEN RowsL ELSE IF LISTS = "share" THEN RowsS ELSE IF LISTS = "tail" THEN RowsT ELSE Rows)])
+         /\ q \in (IF LISTS = "order" THEN SimpleO ELSE IF LISTS = "lists" THEN SimpleL ELSE IF LISTS = "share" THEN SimpleS ELSE IF LISTS = "tail" THEN SimpleT ELSE Simple \cup (IF NEST THEN Nested \cup Indirect ELSE {}))
          /\ st = InitState(Db(rows), q, 9)
          /\ hist = <<>>
 GNext == /\ ~Terminal(st)
